@@ -43,6 +43,14 @@ WRAP = "-Wl,--wrap=malloc,--wrap=calloc,--wrap=realloc,--wrap=dup,--wrap=deflate
 LIBFLAGS = ["-fno-sanitize=nonnull-attribute"]
 
 
+def zs(*ls):
+    """zip of streams that must be equally long: anything else is a failure of the check's infrastructure"""
+    ls = [list(l) for l in ls]
+    if len(set(len(l) for l in ls)) > 1:
+        raise vlib.CheckFailure("internal: zip of streams of unequal length %s" % [len(l) for l in ls])
+    return zip(*ls)
+
+
 # --------------------------------------------------------------------------------------------- environment
 def build(ctx):
     lib = ctx.build_lib("c19", flags=LIBFLAGS)
@@ -363,6 +371,8 @@ def gen_scenario(ctx, tag, kind, imgs, sizes, variant=None):
         args, mk = "file %s" % imgs["gzip"], "file"
     elif kind == "wfile":
         args, mk = "wfile %s" % ctx.scratch, "file"
+    elif kind == "nocopy":
+        args, mk = "nocopy %s" % imgs["gzip"], "file"
     else:
         ending = None
         if kind == "data" and variant and variant.startswith("cache:"):
@@ -380,16 +390,18 @@ def gen_scenario(ctx, tag, kind, imgs, sizes, variant=None):
             sizes = dict(sizes, dirset="bigino" if variant == "bigino" else "std")
     s = Scenario(tag, kind, args, mk)
     s.damaged = damaged
-    if kind == "wfile":
-        # the copy hook of a file opened for writing refuses: sqfs_copy returns NULL, nothing changes, nothing leaks
-        for op in ["size", "read 0 16", "read 4 8"][:r.randint(0, 3)]:
+    if kind in ("wfile", "nocopy"):
+        # the copy hook of a file opened for writing refuses: sqfs_copy returns NULL, nothing changes, nothing leaks;
+        # `nocopy`: an object whose copy hook is NULL (an input stream): sqfs_copy must test the pointer and return NULL
+        wops = ["size", "read 0 16", "read 4 8", "size", "read 1 15"] if kind == "wfile" else ["peek 4", "peek 16", "peek 1", "peek 8", "peek 20"]
+        for op in wops[:3][:r.randint(0, 3)]:
             i = s.op("o", op); j = s.op("t1", op); k = s.op("t2", op)
             s.pairs += [(i, j), (i, k)]
         s.ctl("views")
         s.copy_at = len(s.lines)
         s.ctl("copy")
         s.ctl("views")
-        for op in ["size", "read 1 15"]:
+        for op in wops[3:]:
             i = s.op("o", op); j = s.op("t1", op)
             s.pairs.append((i, j))
         s.ctl("drop o")
@@ -559,7 +571,9 @@ def run_harness(ctx, harness, scenarios, jobs=6, sanitized=True):
                 cur.append(l)
         if len(res) != len(ch) or p.returncode != 0 or cur:
             raise vlib.CheckFailure("harness produced %d results for %d scenarios (rc=%s, %d stray lines): %s" % (len(res), len(ch), p.returncode, len(cur), p.stderr[-500:]))
-        for (ans, ex), sc in zip(res, ch):
+        for (ans, ex), sc in zs(res, ch):
+            if ex[0] == "ok" and len(ans) != len(sc.lines) + 1:
+                raise vlib.CheckFailure("scenario %s (%s) ended normally but answered %d lines for %d" % (sc.tag, sc.args.split()[0], len(ans), len(sc.lines) + 1))
             if any(a == "bad-op" for a in ans):
                 raise vlib.CheckFailure("harness did not understand a line of scenario %s (%s): %r" % (sc.tag, sc.args.split()[0], [l for l, a in zip(sc.lines, ans) if a == "bad-op"][:3]))
         return res
@@ -614,7 +628,7 @@ def run_model(ctx, mode, scenarios, shapes, fail_at=None):
             cur.append(l)
     if len(res) != len(scenarios) or cur:
         raise vlib.CheckFailure("model driver produced %d results for %d scenarios (%d stray lines)" % (len(res), len(scenarios), len(cur)))
-    for (ans, ex), sc in zip(res, scenarios):
+    for (ans, ex), sc in zs(res, scenarios):
         if len(ans) != len(sc.mlines) + 2:
             raise vlib.CheckFailure("model driver answered %d lines for %d of scenario %s" % (len(ans), len(sc.mlines) + 2, sc.tag))
         if any(a == "bad-op" for a in ans):
@@ -736,7 +750,8 @@ def judge(ctx, s, hres, var, stats):
     cl = lambda ans: next((norm_ctl(l) for l in ans if l.startswith("copy ok")), None)
     hp = cl(hans)
     if getattr(s, "expect_null", False) and hp is not None:
-        return ("wfile:copied", "sqfs_copy of a file opened for writing returned an object (stdio_copy must refuse: the copy would share the write position / truncate state)", True)
+        return ("%s:copied" % s.kind, "sqfs_copy of %s returned an object" % ("a file opened for writing (stdio_copy must refuse: the copy would share the write position / truncate state)"
+                                                                             if s.kind == "wfile" else "an object whose copy hook is NULL"), True)
     # the model of the hooks this tree has: the first variant whose fresh copy shows the facts the probe shows; without
     # a probe (failed copy) the first variant that explains the run
     if hp is not None:
@@ -813,7 +828,7 @@ def evaluate(ctx, harness, scs):
 
 def evaluate_models(ctx, scs, res):
     shapes = []
-    for s, (hans, hexit) in zip(scs, res):
+    for s, (hans, hexit) in zs(scs, res):
         pl = next((l for l in hans if l.startswith("copy ok")), None)
         probe = parse_probe(pl) if pl else getattr(s, "base_probe", None)
         shapes.append(shape_of(probe) if probe else (getattr(s, "fixed_shape", None) or "shape - - -"))
@@ -851,7 +866,7 @@ def run_histories(ctx, harness, scs, label):
     # successful copy made — all of them (quick tier too: which failure path leaks must not depend on the seed); for copies
     # with very many allocations (xattr writer with many strings) the first six, the last two and two in between
     fscs = []
-    for s, (hans, hexit) in zip(scs, hres):
+    for s, (hans, hexit) in zs(scs, hres):
         cl = hans[s.copy_at] if s.copy_at is not None and s.copy_at < len(hans) else ""
         m = re.search(r"allocs=(\d+)", cl)
         if not m or not cl.startswith("copy ok"):
@@ -871,7 +886,7 @@ def run_histories(ctx, harness, scs, label):
     # every injected failure made the k-th acquisition inside sqfs_copy fail (the wrapper counted k calls or more in the
     # successful run): a hook that still hands out an object ignored the failure
     ignored = {}
-    for f, hr in zip(fscs, fres):
+    for f, hr in zs(fscs, fres):
         hans = hr[0]
         if f.copy_at < len(hans) and hans[f.copy_at].startswith("copy ok"):
             ignored[f.kind] = ignored.get(f.kind, 0) + 1
@@ -887,7 +902,7 @@ def run_histories(ctx, harness, scs, label):
     stats = {"outcomes": {}, "kinds": {}, "findings": {}}
     pair_checks = 0
     view_checks = 0
-    for idx, (s, hr) in enumerate(zip(allsc, allres)):
+    for idx, (s, hr) in enumerate(zs(allsc, allres)):
         stats["kinds"][s.kind] = stats["kinds"].get(s.kind, 0) + 1
         pair_checks += sum(1 for i, j in s.pairs if i < len(hr[0]) and j < len(hr[0]))
         view_checks += len(view_relations(s, hr[0]))
@@ -946,7 +961,7 @@ def check_big_units(ctx, us, hres, pool, label):
     if len(us) != len(hres):
         raise vlib.CheckFailure("big units: %d scenarios, %d results" % (len(us), len(hres)))
     n_ok = 0
-    for u, (hans, hexit) in zip(us, hres):
+    for u, (hans, hexit) in zs(us, hres):
         pad = (u.ks + 7) // 8 * 8
         exp = ["bulk 0 %d" % u.n, "copy 0 kp=%d alias=0%s" % (pad, " pool=own nodes=in" if pool else ""),
                "cmpcopy same=1 n=%d%s" % (u.n, " nodes=in blocks=many" if pool else ""), "verify %d" % u.n, "verify %d" % u.n, "drop", "verify %d" % u.n, "drop", "fds-at-end +0"]
@@ -984,7 +999,7 @@ def run_pool(ctx, hp, scs, us):
     st = {"scenarios": len(H["allsc"]), "alloc_failure_variants": len(H["fscs"]), "copies_with_pool_facts": 0, "dir_copies_with_cached_inodes": 0, "xwr_copies_with_blocks": 0,
           "failed_by_mmap": {"dir": 0, "xwr": 0}, "real_outcomes": H["stats"]["outcomes"], "classified": H["stats"]["findings"]}
     reported = 0
-    for s, (hans, _) in zip(pscs, phres):
+    for s, (hans, _) in zs(pscs, phres):
         cl = hans[s.copy_at] if s.copy_at is not None and s.copy_at < len(hans) else ""
         if not cl.startswith("copy ok"):
             continue
@@ -1002,7 +1017,7 @@ def run_pool(ctx, hp, scs, us):
             if reported <= 2:
                 ctx.violation("pool:%s:ownership" % s.kind, "%s, default configuration: the tree of a fresh copy does not live in a pool of the copy's own (`%s`): it dies with the original [scenario %s]" % (
                     s.kind, cl[cl.index(" pool="):], s.tag), replay_dict(ctx, s, (hans, ["-"]), "pool:"), found_input=True)
-    for f, (hans, _) in zip(H["fscs"], H["fres"]):
+    for f, (hans, _) in zs(H["fscs"], H["fres"]):
         if f.copy_at < len(hans) and "failed=mmap" in hans[f.copy_at]:
             st["failed_by_mmap"][f.kind] += 1
     cbad, cst = check_copystate(ctx, pscs, phres, floors=False)
@@ -1013,7 +1028,7 @@ def run_pool(ctx, hp, scs, us):
     # the same histories, uninstrumented: nothing between the code and munmap; answers as in the sanitized pool build
     plres = run_harness(ctx, hp["plain"], pscs, sanitized=False)
     ndiff = 0
-    for s, (ha, ea), (hb, eb) in zip(pscs, phres, plres):
+    for s, (ha, ea), (hb, eb) in zs(pscs, phres, plres):
         why = None
         if eb[0] != "ok":
             why = "exit %s" % " ".join(eb)[:200]
@@ -1028,6 +1043,7 @@ def run_pool(ctx, hp, scs, us):
                 ctx.violation("pool-plain:%s" % s.kind, "%s, default configuration, uninstrumented build with use-after-release canary: %s [scenario %s]" % (s.kind, why, s.tag),
                               replay_dict(ctx, s, (hb, eb), "pool-plain:"), found_input=True)
     st["uninstrumented_scenarios"] = len(pscs)
+    st["answer_lines"] = sum(len(hr[0]) for hr in H["allres"]) + sum(len(hr[0]) for hr in plres)
     # units
     pus = gen_pool_units(ctx, us)
     for name, h, san in (("asan", hp["asan"], True), ("plain", hp["plain"], False)):
@@ -1043,6 +1059,7 @@ def run_pool(ctx, hp, scs, us):
                           {"scenario": u.text(), "answers": hans[-6:], "exit": hexit, "config": "pool",
                            "entry": {"unit": True, "pool": True, "kind": u.kind, "args": u.args, "lines": u.lines, "same": [list(p) for p in u.same]}}, found_input=True)
         st["units_" + name] = ustat
+        st["answer_lines"] += ustat["answers"]
     big = gen_big_units(ctx)
     st["big_trees_ok"] = {name: check_big_units(ctx, big, run_harness(ctx, h, big, sanitized=san), True, "pool:") for name, h, san in (("asan", hp["asan"], True), ("plain", hp["plain"], False))}
     floors = []
@@ -1102,7 +1119,7 @@ def check_tables(ctx, harness, scs, hres):
     if len(out) != sum(len(s.lines) + 2 for s in scs):
         raise vlib.CheckFailure("table model answered %d lines, expected %d" % (len(out), sum(len(s.lines) + 2 for s in scs)))
     bad, k, total = [], 0, 0
-    for s, (hans, hexit) in zip(scs, hres):
+    for s, (hans, hexit) in zs(scs, hres):
         m = out[k + 1:k + 1 + len(s.lines)]
         k += len(s.lines) + 2
         if any(x == "bad-op" for x in m):
@@ -1128,7 +1145,7 @@ def check_descriptions(ctx, scs, hres):
     """`sqfsmodel c19 describe <kind>` against everything the probe saw in this run, slot by slot; a slot that was NULL in
     every scenario was never checked: that is a failure of the generators, not a pass"""
     seen = {}
-    for s, (hans, _) in zip(scs, hres):
+    for s, (hans, _) in zs(scs, hres):
         pl = next((l for l in hans if l.startswith("copy ok")), None)
         if not pl:
             continue
@@ -1167,7 +1184,7 @@ def check_copystate(ctx, scs, hres, floors=True):
     """drCopy / mrCopy of the model applied to the state dumped from the real original must be the state dumped from the
     real copy; the cache invariant (specification) must hold of every real original"""
     pairs = []
-    for s, (hans, _) in zip(scs, hres):
+    for s, (hans, _) in zs(scs, hres):
         if s.kind not in ("data", "meta", "dir") or s.failcopy or s.copy_at is None:
             continue
         io = next((i for i, l in enumerate(s.lines) if l == "dump o" and i < len(hans)), None)
@@ -1182,7 +1199,7 @@ def check_copystate(ctx, scs, hres, floors=True):
         raise vlib.CheckFailure("copystate: %d answers for %d dumps" % (len(out), len(pairs)))
     bad, st = [], {"data": 0, "meta": 0, "dir": 0, "data_block_cached": 0, "frag_block_cached": 0, "short_block_cached": 0,
                    "dir_cache_nodes": 0, "dir_refs_above_2^32": 0, "dir_refs_above_2^36": 0, "dir_without_cache": 0, "dir_empty_cache": 0}
-    for (s, o, c), m in zip(pairs, out):
+    for (s, o, c), m in zs(pairs, out):
         if m == "bad-op":
             raise vlib.CheckFailure("copystate: the model driver could not parse `%s…`" % o[:120])
         st[s.kind] += 1
@@ -1395,7 +1412,7 @@ def check_units(ctx, us, hres, mode="unit", pool=False):
     bad, k, stats = [], 0, {"answers": 0, "copies": 0, "failed_copies": 0, "spec_pairs": 0, "rbt_layouts": set(), "rbt_padded_value_tail_nonzero": 0,
                             "failed_mmap": 0, "copies_pool_own_nodes_in": 0}
     leaks = []
-    for u, (hans, hexit) in zip(us, hres):
+    for u, (hans, hexit) in zs(us, hres):
         m = out[k + 1:k + 1 + len(u.lines)]
         k += len(u.lines) + 2
         if any(x == "bad-op" for x in m):
@@ -1463,7 +1480,7 @@ def run(ctx):
         plan += [("comp", c)] * max(3, per_kind // 4) + [("comp", c + "!"), ("comp", c + "!2"), ("comp", c + "!u")] * (1 if ctx.quick() else 6)
     for kind in ("idtable", "fragtable", "file", "xwr"):
         plan += [(kind, None)] * per_kind
-    plan += [("wfile", None)] * (3 if ctx.quick() else 20)
+    plan += [("wfile", None)] * (3 if ctx.quick() else 20) + [("nocopy", None)] * (2 if ctx.quick() else 10)
     for kind in ("meta", "dir", "data", "xattr"):
         for k in ikeys:
             n = max(4, per_kind // len(ikeys))
@@ -1492,13 +1509,13 @@ def run(ctx):
     ctx.log("%d scenarios (%d corpus), harness built; running" % (len(scs), len(corpus)))
     H = run_histories(ctx, harness, scs, "")
     hres, fscs, allsc, allres, stats, pair_checks, view_checks = H["hres"], H["fscs"], H["allsc"], H["allres"], H["stats"], H["pair_checks"], H["view_checks"]
-    fresh_checks = sum(1 for s, hr in zip(scs, hres) for i, l in enumerate(s.lines) if l.startswith("f ") and i < len(hr[0]) and not hr[0][i].startswith(("no-object", "fresh-failed")))
+    fresh_checks = sum(1 for s, hr in zs(scs, hres) for i, l in enumerate(s.lines) if l.startswith("f ") and i < len(hr[0]) and not hr[0][i].startswith(("no-object", "fresh-failed")))
     # operations must have *succeeded* on copies, or equal answers say nothing: per kind, at least one successful answer of
     # the copy after the copy was made
     okpat = {"comp": r"blk [1-9]", "idtable": r"(add|get) 0 ", "fragtable": r"(append|lookup|set) 0", "file": r"read 0 ", "meta": r"read 0 ",
              "dir": r"list 0 [1-9]", "data": r"read [1-9]", "xattr": r"readall 0 [1-9]", "xwr": r"flush 0 "}
     okcount = {k: 0 for k in okpat}
-    for s, (hans, _) in zip(scs, hres):
+    for s, (hans, _) in zs(scs, hres):
         if s.kind in okpat:
             okcount[s.kind] += sum(1 for l, a in zip(s.lines, hans) if l.startswith("c ") and re.match(okpat[s.kind], a))
     for k, v in okcount.items():
@@ -1506,7 +1523,7 @@ def run(ctx):
             raise vlib.CheckFailure("no operation on a copied %s object succeeded in this run: the comparison with the twin says nothing" % k)
     # per compressor and mode (compress / uncompress) and per forced configuration: a successful copy that then worked
     comp_modes = {}
-    for s, (hans, _) in zip(scs, hres):
+    for s, (hans, _) in zs(scs, hres):
         if s.kind == "comp" and any(a.startswith("copy ok") for a in hans) and any(l.startswith("c ") and re.match(r"blk [1-9]", a) for l, a in zip(s.lines, hans)):
             w = s.args.split()
             comp_modes[(w[1], w[2])] = comp_modes.get((w[1], w[2]), 0) + 1
@@ -1530,7 +1547,7 @@ def run(ctx):
     # directory readers: the copies were asked questions whose answer is a reference that does not fit 32 / 36 bits (counted
     # on the twin that mirrors the copy, so that the floor does not depend on the copy being right)
     hi = {"2^32": 0, "2^36": 0, "dots": 0}
-    for s, (hans, _) in zip(scs, hres):
+    for s, (hans, _) in zs(scs, hres):
         if s.kind == "dir":
             for l, a in zip(s.lines, hans):
                 if l.startswith("t2 ") and re.match(r"(inumof|rel|resolve|inum) 0 \d+$", a):
@@ -1570,18 +1587,19 @@ def run(ctx):
     for s, i, a, b in tbad[:3]:
         ctx.violation("tbl:%s" % s.kind, "%s: answer of `%s` is `%s`, the state-machine model says `%s`" % (s.kind, s.lines[i], a, b),
                       replay_dict(ctx, s, ([a], ["-"])), found_input=False)
-    nontrivial = sum(1 for s, hr in zip(allsc, allres) if any(l.startswith("copy ok") or l.startswith("copy NULL") for l in hr[0]))
-    copies_ok = sum(1 for s, hr in zip(allsc, allres) if any(l.startswith("copy ok") for l in hr[0]))
-    copies_null = sum(1 for s, hr in zip(allsc, allres) if any(l.startswith("copy NULL") for l in hr[0]))
+    nontrivial = sum(1 for s, hr in zs(allsc, allres) if any(l.startswith("copy ok") or l.startswith("copy NULL") for l in hr[0]))
+    copies_ok = sum(1 for s, hr in zs(allsc, allres) if any(l.startswith("copy ok") for l in hr[0]))
+    copies_null = sum(1 for s, hr in zs(allsc, allres) if any(l.startswith("copy NULL") for l in hr[0]))
+    refused = {k: sum(1 for s_, hr in zs(scs, hres) if s_.kind == k and hr[1][0] == "ok" and any(l.startswith("copy NULL") for l in hr[0])) for k in ("wfile", "nocopy")}
     # floors: a part that evaluated nothing is a failure of the check, not a pass
-    for name, val in (("table answers", ttotal), ("successful copies", copies_ok), ("failed copies", copies_null), ("twin comparisons", pair_checks),
+    for name, val in (("sqfs_copy of a file opened for writing (hook refuses)", refused["wfile"]), ("sqfs_copy of an object whose copy hook is NULL", refused["nocopy"]), ("table answers", ttotal), ("successful copies", copies_ok), ("failed copies", copies_null), ("twin comparisons", pair_checks),
                       ("view relations", view_checks), ("comparisons with a directory reader without history", fresh_checks)):
         if val <= 0:
             floor_problems.append("the check evaluated no %s" % name)
     if floor_problems:
         raise vlib.CheckFailure("; ".join(floor_problems)[:1500])
     ctx.cov.update({
-        "evaluations": sum(len(s.lines) for s in allsc) + sum(len(s.lines) for s in tscs) + sum(len(u.lines) for u in us),
+        "evaluations": sum(len(s.lines) for s in allsc) + sum(len(s.lines) for s in tscs) + sum(len(u.lines) for u in us) + pool_cov["answer_lines"],
         "unit_scenarios": len(us), "units": ustat, "default_configuration_pool_allocator": pool_cov, "directory_copies_asked_for_high_references": hi,
         "distinct_nontrivial": nontrivial,
         "rule": "seeded scenarios per kind (5 compressors x {compress with random level/window/flags, uncompress}, id/fragment table, read-only file, "
@@ -1600,7 +1618,7 @@ def run(ctx):
         "compressor_copies_by_mode_and_configuration": {"%s %s" % k: v for k, v in sorted(comp_modes.items())},
         "table_answers_compared_with_model": ttotal, "copystate": cstat, "descriptions_vs_probe": dfacts,
         "scenarios_per_kind": stats["kinds"], "real_outcomes": stats["outcomes"], "classified": stats["findings"],
-        "samples": [{"scenario": s.text()[:600], "exit": hr[1]} for s, hr in list(zip(allsc, allres))[:2] + list(zip(allsc, allres))[-1:]],
+        "samples": [{"scenario": s.text()[:600], "exit": hr[1]} for s, hr in list(zs(allsc, allres))[:2] + list(zs(allsc, allres))[-1:]],
         "disagreements_checked": sum(stats["findings"].values()) + len(tbad) + len(cbad) + len(dprob) + len(ubad),
     })
     return ctx.finish(LEVEL, trusted_extra=[
